@@ -92,6 +92,9 @@ struct vf_in {
 };
 VF_DECLARE_INPUT(struct vf_in, IN)
 #include "vf_input.inc"
+static unsigned char E[TL_MAXBYTES];	/* expected stream, built from the format description BEFORE the real call */
+static unsigned int en;
+#define TL_EXPECT E
 #include "tlog.h"
 
 static struct struct_ext2_filsys vf_fs;
@@ -124,8 +127,6 @@ static struct vf_blk vf_blkW __attribute__((aligned(8)));
 #else
 static unsigned char W[OSZ + 8] __attribute__((aligned(8)));	/* the object the real code works on */
 #endif
-static unsigned char E[TL_MAXBYTES];	/* expected stream */
-static unsigned int en;
 static ext2_ino_t vf_asked_ino;
 static int vf_read_inode_calls;
 
@@ -172,13 +173,7 @@ static void ref_e_range_zeroed(const unsigned char *o, unsigned int from, unsign
 }
 static int vf_stream_equal(void)
 {
-	unsigned int i;
-	if (tl_overflow || tl_nbytes != en)
-		return 0;
-	for (i = 0; i < TL_MAXBYTES; i++)
-		if (i < en && tl_bytes[i] != E[i])
-			return 0;
-	return 1;
+	return !tl_overflow && !tl_mismatch && tl_nbytes == en;
 }
 /* W == IN.obj except inside [a,a+al) and [b,b+bl) */
 static int vf_unchanged_except(unsigned int a, unsigned int al, unsigned int b, unsigned int bl)
